@@ -48,6 +48,17 @@ class _SummaryHooks(Hooks):
         return None
 
 
+def _higher_order(fv):
+    """a callee that is a computed function value: the result of a call, an
+    element taken from a container / iterator, a loop variable"""
+    if isinstance(fv, App) and fv.op in ('call', 'mcall', 'ite'):
+        return True
+    if isinstance(fv, Sym) and fv.meta and fv.meta[0] in (
+            'elem', 'next', 'loopvar', 'widened'):
+        return True
+    return False
+
+
 class Summary(object):
     def __init__(self, fi, nparams):
         self.fi = fi
@@ -62,6 +73,9 @@ class Summary(object):
         self.failed = None
         self.raw_writes = []    # (kind, name, target, where, roots)
         self.rkinds = set()
+        self.opaque = []        # calls of a function *value* (result of a
+                                # call, element of a container) with
+                                # argument-rooted operands: effects unknown
 
     def __repr__(self):
         return 'Summary(%s mut=%s ralias=%s stores=%s)' % (
@@ -352,6 +366,17 @@ class Effects(object):
                         pass
                     else:
                         key = ('unknown', repr(fv)[:60])
+                        if _higher_order(fv):
+                            rs0 = set()
+                            for x in args:
+                                if isinstance(x, (Sym, App, Coll, Tup, Obj)):
+                                    rs0 |= self.roots(
+                                        I.snapshot(x, p) if isinstance(
+                                            x, Obj) else x, params)
+                            if rs0:
+                                s.opaque.append('%s called at %s' % (
+                                    repr(fv)[:80], I.where(e.node,
+                                                           f.module)))
                         if isinstance(fv, ERef) and any(
                                 fv.name.startswith(x) for x in
                                 ('random', 'time', 'os.', 'uuid')):
@@ -377,6 +402,14 @@ class Effects(object):
                 s.rkinds.add('call:' + self._key(fx))
             elif isinstance(v, Const):
                 s.rkinds.add('const:' + type(v.v).__name__)
+            elif isinstance(v, App) and v.op == 'call' and \
+                    _higher_order(v.args[0]):
+                # the result of calling a function value: nothing is known
+                # about what it aliases
+                s.rkinds.add('opaque-call:' + repr(v.args[0])[:60])
+                s.opaque.append('result of %s returned' % repr(
+                    v.args[0])[:80])
+                v = None
             else:
                 s.rkinds.add('other:' + repr(v)[:80])
             if isinstance(v, Obj):
